@@ -30,6 +30,11 @@ import (
 //   podcrash  parent and job die together at each such point; restart = new
 //             Manager over the surviving directory
 //   fserr     one storage operation fails (EIO/ENOSPC, short write)
+// Kill plans may add episodes in which the kill is followed by ONE transient
+// storage error in the parent while it deals with the dead job (settling the
+// manifest the job left, before any retry starts): the kill-only episodes
+// record the parent's storage operations of that window, the added episodes
+// fail one of them each.
 // After the fault 1..3 further cycles run without faults (optionally after
 // late-arriving files were added) and the oracle compares the rows shown by
 // the partition's complete files with the rows written.
@@ -72,6 +77,12 @@ type C09Plan struct {
 	// and the step have one cause, e.g. a VM that was frozen and resumed), so
 	// the parent handles the dead job with the stepped clock.
 	KillStepS int `json:"kill_step_s,omitempty"`
+	// ParentErr > 0 (kill family): that many further episodes repeat one of the
+	// plan's kills and then fail one storage operation (once) of the parent
+	// process in the window between the job's death and the next job of that
+	// partition (the parent settling the dead job's manifest, cleaning up,
+	// deciding about a retry).
+	ParentErr int `json:"parent_err_points,omitempty"`
 }
 
 // longSpan draws a span of days to months (seconds). The values are plain
@@ -237,6 +248,18 @@ func genC09(r *simrt.Rand, tier string) any {
 	if p.Family == "kill" && r.Chance(35) {
 		p.KillStepS = longSpan(r)
 	}
+	if p.Family == "kill" && r.Chance(75) {
+		p.ParentErr = 4
+		if tier == "thorough" {
+			p.ParentErr = 12
+		}
+		if p.Knobs.MaxFilesPerBatch < 4 && r.Chance(60) {
+			// whether the parent may retry is the question of these episodes: the
+			// half-batch retry only runs for batches that can be split into two
+			// batches of at least two files
+			p.Knobs.MaxFilesPerBatch = []int{4, 6}[r.Intn(2)]
+		}
+	}
 	return p
 }
 
@@ -283,7 +306,23 @@ type faultPoint struct {
 	Idx   int64  // fs op index relative to the window base (crash/err) or step offset (step)
 	Label string
 	Op    string
+	// Parent: after the kill, the parent's storage operation number PRel
+	// (counted on the pod's node from the moment the job was found dead) fails once.
+	Parent bool
+	PRel   int64
+	POp    string // kind:class of that operation
 }
+
+// parentOp is one storage operation of the parent in the window after a kill.
+type parentOp struct {
+	Rel int64
+	Op  string
+}
+
+const parentErrSep = "+parent-err@"
+
+// parentWindowCap bounds the recorded window (the handling of the dead job comes first).
+const parentWindowCap = 16
 
 type c09world struct {
 	p           *C09Plan
@@ -769,6 +808,8 @@ type epResult struct {
 	atFault    string // what the faulted node had made durable when the first cycle ended
 	fired      bool
 	stepped    bool // the wall clock was stepped when the targeted job was killed
+	window     []parentOp // kill episodes: the parent's storage operations after the kill (until the partition's next job or the end of the cycle)
+	pfired     bool       // the parent-side storage error was injected
 	jobs       int
 	killed     int
 	cycleErr   string
@@ -804,8 +845,13 @@ func (w *c09world) episode(fp *faultPoint, twin *epResult) *epResult {
 			}
 			return p
 		}
+		// the parent's window after the kill of the targeted job
+		winOpen, winPart, killBase := false, "", int64(0)
 		simrt.SetFSObserver(func(op *simrt.FSOp, err error) {
 			trk.observe(op, err)
+			if winOpen && op.Node == pd.sn && strings.HasPrefix(op.Path, pd.dataDir+string(filepath.Separator)) && len(ep.window) < parentWindowCap {
+				ep.window = append(ep.window, parentOp{Rel: op.Index - killBase, Op: opClass(op.Kind, relOf(op.Path))})
+			}
 			if err == nil && op.Mut && op.Node != nil {
 				g := live[op.Node.Name]
 				if g == nil {
@@ -870,19 +916,43 @@ func (w *c09world) episode(fp *faultPoint, twin *epResult) *epResult {
 				})
 			}
 		}
-		if family == "kill" && fp != nil && p.KillStepS > 0 {
+		if family == "kill" && fp != nil {
 			pd.onKilled = func(j *jobRec) {
-				if j.idx == w.job {
+				if j.idx != w.job {
+					return
+				}
+				if p.KillStepS > 0 {
 					// one machine, one wall clock: jobs started later inherit it
 					simrt.StepWall(pd.sn, time.Duration(p.KillStepS)*time.Second)
 					ep.stepped = true
 				}
+				winOpen, winPart, killBase = true, j.part, pd.sn.FSOps()
+				if !fp.Parent {
+					return
+				}
+				target := killBase + fp.PRel
+				simrt.SetFSInjector(func(op *simrt.FSOp) simrt.FSAction {
+					if op.Node != pd.sn || op.Index != target {
+						return simrt.FSAction{}
+					}
+					simrt.SetFSInjector(nil)
+					if !winOpen || opClass(op.Kind, relOf(op.Path)) != fp.POp {
+						return simrt.FSAction{} // not the operation the kill-only episode saw here
+					}
+					ep.pfired = true
+					simrt.Count("fault.parent_storage_error_after_kill", 1)
+					simrt.Event("FAULT parent-err at +%d %s", fp.PRel, fp.POp)
+					return simrt.FSAction{Err: simrt.EIO}
+				})
 			}
 		}
 		if family == "podcrash" {
 			arm(pd.sn)
 		} else if fp != nil {
 			pd.onJob = func(j *jobRec) {
+				if winOpen && j.idx != w.job && j.part == winPart {
+					winOpen = false // the partition's next job (a retry) starts: the dead job has been dealt with
+				}
 				if j.idx == w.job {
 					arm(j.node)
 				} else if j.idx == w.job+1 && p.Second > 0 && family == "kill" {
@@ -900,6 +970,7 @@ func (w *c09world) episode(fp *faultPoint, twin *epResult) *epResult {
 			cerr = pd.cycle()
 		})
 		recording = false
+		winOpen = false
 		simrt.SetFSInjector(nil)
 		pd.onJob = nil
 		pd.onKilled = nil
@@ -1062,22 +1133,7 @@ func (w *c09world) faultPoints(twin *epResult) []faultPoint {
 			work = append(work, o)
 		}
 	}
-	desc := func(o fsRec) string {
-		b := filepath.Base(o.rel)
-		switch {
-		case strings.Contains(o.rel, compaction.ManifestBasePath):
-			b = "manifest"
-		case strings.HasSuffix(b, ".part"):
-			b = "output.part"
-		case strings.HasSuffix(b, ".parquet"):
-			b = "data-file"
-		case strings.HasPrefix(o.rel, "data/"):
-			b = "storage-dir"
-		default:
-			b = "temp"
-		}
-		return o.kind + ":" + b
-	}
+	desc := func(o fsRec) string { return opClass(o.kind, o.rel) }
 	switch p.Family {
 	case "kill", "podcrash":
 		for i, o := range storage {
@@ -1115,7 +1171,15 @@ func (w *c09world) faultPoints(twin *epResult) []faultPoint {
 	}
 	if len(p.Only) > 0 {
 		var sel []faultPoint
+		seen := map[string]bool{}
 		for _, key := range p.Only {
+			if i := strings.Index(key, parentErrSep); i >= 0 {
+				key = key[:i] // the kill-only episode runs first: it yields the parent's window
+			}
+			if seen[key] {
+				continue
+			}
+			seen[key] = true
 			if strings.HasPrefix(key, "step@") {
 				var pm int64
 				fmt.Sscanf(key, "step@%d", &pm)
@@ -1175,6 +1239,132 @@ func (w *c09world) faultPoints(twin *epResult) []faultPoint {
 		return sel
 	}
 	return pts
+}
+
+// opClass names a file-system operation by its kind and the class of its
+// path (rel is relative to the episode root).
+func opClass(kind, rel string) string {
+	b := filepath.Base(rel)
+	switch {
+	case strings.Contains(rel, compaction.ManifestBasePath):
+		b = "manifest"
+	case strings.HasSuffix(b, ".part"):
+		b = "output.part"
+	case strings.HasSuffix(b, ".parquet"):
+		b = "data-file"
+	case strings.HasPrefix(rel, "data/"):
+		b = "storage-dir"
+	default:
+		b = "temp"
+	}
+	return kind + ":" + b
+}
+
+// killCand is a kill point whose kill-only episode showed storage operations
+// of the parent in the window after the kill.
+type killCand struct {
+	fp    faultPoint
+	win   []parentOp
+	label string // phase in which the job died
+}
+
+// parentPoint builds the episode "kill c.fp, then the parent's window
+// operation number i fails once".
+func parentPoint(c killCand, i int) faultPoint {
+	o := c.win[i]
+	ord := 0
+	for _, x := range c.win[:i] {
+		if x.Op == o.Op {
+			ord++
+		}
+	}
+	fp := c.fp
+	fp.Key = fmt.Sprintf("%s%s%s#%d", c.fp.Key, parentErrSep, o.Op, ord)
+	fp.Parent, fp.PRel, fp.POp = true, o.Rel, o.Op
+	return fp
+}
+
+func parentPointByKey(cands []killCand, key string) (faultPoint, bool) {
+	if !strings.Contains(key, parentErrSep) {
+		return faultPoint{}, false
+	}
+	for _, c := range cands {
+		if !strings.HasPrefix(key, c.fp.Key+parentErrSep) {
+			continue
+		}
+		for i := range c.win {
+			if fp := parentPoint(c, i); fp.Key == key {
+				return fp, true
+			}
+		}
+	}
+	return faultPoint{}, false
+}
+
+// parentPoints samples n (kill point, parent operation) pairs. The space is
+// the union of the recorded windows; it is stratified by the phase in which
+// the job died (what it had made durable), and the slots are handed out in
+// proportion to the number of storage operations the parent performs for a
+// job that died in that phase (highest averages), so that the sample is
+// spread evenly over the operations. Within a phase the kill point and the
+// operation rotate with the plan's selector; no pair is taken twice.
+func parentPoints(cands []killCand, n, sel int) []faultPoint {
+	type group struct {
+		label string
+		cs    []killCand
+		size  int // operations in the group's largest window
+		picks int
+	}
+	var groups []*group
+	byLabel := map[string]*group{}
+	for _, c := range cands {
+		g := byLabel[c.label]
+		if g == nil {
+			g = &group{label: c.label}
+			byLabel[c.label] = g
+			groups = append(groups, g)
+		}
+		g.cs = append(g.cs, c)
+		if len(c.win) > g.size {
+			g.size = len(c.win)
+		}
+	}
+	taken := map[string]bool{}
+	var out []faultPoint
+	for len(out) < n {
+		var best *group
+		for _, g := range groups {
+			total := 0
+			for _, c := range g.cs {
+				total += len(c.win)
+			}
+			if g.picks >= total {
+				continue // exhausted
+			}
+			if best == nil || g.size*(best.picks+1) > best.size*(g.picks+1) {
+				best = g
+			}
+		}
+		if best == nil {
+			break
+		}
+		// next untaken pair of the group, starting at a plan-chosen position
+		found := false
+		for a := 0; a < len(best.cs) && !found; a++ {
+			c := best.cs[(sel+best.picks+a)%len(best.cs)]
+			for b := 0; b < len(c.win) && !found; b++ {
+				i := (sel/7 + best.picks*5 + b) % len(c.win)
+				fp := parentPoint(c, i)
+				if !taken[fp.Key] {
+					taken[fp.Key] = true
+					out = append(out, fp)
+					found = true
+				}
+			}
+		}
+		best.picks++
+	}
+	return out
 }
 
 func stepPoint(permille, winSteps int64) faultPoint {
@@ -1285,8 +1475,9 @@ func runC09(planAny any, cfg simrt.Config) *simkit.Outcome {
 	pts := w.faultPoints(twin)
 	nViol := 0
 	violKeys = violKeys[:0]
-	for _, fp := range pts {
-		fp := fp
+	var cands []killCand
+	// exec runs one fault episode and judges it; false = stop enumerating
+	exec := func(fp faultPoint) bool {
 		ep := w.episode(&fp, twin)
 		out.Evals++
 		hash = mixHash(hash, ep.res.TraceHash)
@@ -1298,13 +1489,28 @@ func runC09(planAny any, cfg simrt.Config) *simkit.Outcome {
 		out.Decisions += ep.res.Decisions
 		if fail(ep, p.Family+" "+fp.Key) {
 			out.Tail = ep.res.Tail
-			break
+			return false
 		}
 		if !ep.fired {
 			out.Stats["probe.fault_not_reached"]++
-			continue
+			return true
 		}
-		out.Stats["fault."+p.Family+"."+fp.Kind]++
+		if fp.Parent && !ep.pfired {
+			out.Stats["probe.parent_fault_not_reached"]++
+			return true
+		}
+		if fp.Parent {
+			out.Stats["fault."+p.Family+"."+fp.Kind+".then-parent-storage-error"]++
+		} else {
+			out.Stats["fault."+p.Family+"."+fp.Kind]++
+		}
+		if p.Family == "kill" && !fp.Parent && ep.killed > 0 && len(ep.window) > 0 {
+			c := killCand{fp: fp, win: ep.window, label: fp.Label}
+			if fp.Kind == "step" {
+				c.label = ep.atFault
+			}
+			cands = append(cands, c)
+		}
 		if ep.killed > 1 {
 			out.Stats["probe.retry_job_killed_too"]++
 		}
@@ -1315,6 +1521,9 @@ func runC09(planAny any, cfg simrt.Config) *simkit.Outcome {
 			label := fp.Label
 			if fp.Kind == "step" {
 				label = ep.atFault // same circumstance as a kill at the adjacent storage operation
+			}
+			if fp.Parent {
+				label += ".then-parent-storage-error-at-" + strings.ReplaceAll(fp.POp, ":", "-")
 			}
 			if ep.partInputs > 0 && strings.HasPrefix(v.rule, "C09.rows-duplicated") {
 				// diagnosis, not oracle: the duplicate rows came from a complete
@@ -1335,6 +1544,33 @@ func runC09(planAny any, cfg simrt.Config) *simkit.Outcome {
 			}
 			nViol = len(out.Violations)
 		}
+		return true
+	}
+	more := true
+	for _, fp := range pts {
+		if more = exec(fp); !more {
+			break
+		}
+	}
+	if more && p.Family == "kill" {
+		// kill followed by one transient storage error in the parent while it
+		// deals with the dead job
+		var extra []faultPoint
+		if len(p.Only) > 0 {
+			for _, key := range p.Only {
+				if fp, ok := parentPointByKey(cands, key); ok {
+					extra = append(extra, fp)
+				}
+			}
+		} else if p.ParentErr > 0 {
+			extra = parentPoints(cands, p.ParentErr, p.PtSel)
+		}
+		for _, fp := range extra {
+			if !exec(fp) {
+				break
+			}
+		}
+		pts = append(pts, extra...)
 	}
 	out.Hash, out.Steps = hash, steps
 	out.Stats["probe.fault_points"] += int64(len(pts))
@@ -1389,6 +1625,11 @@ func shrinkC09(planAny any) []any {
 		q.KillStepS = 0
 		out = append(out, q)
 	}
+	if p.ParentErr > 0 && len(p.Only) == 0 {
+		q := cp()
+		q.ParentErr = 0
+		out = append(out, q)
+	}
 	if p.Knobs.Daily {
 		q := cp()
 		q.Knobs.Daily = false
@@ -1435,5 +1676,5 @@ func descC09(planAny any) any {
 	}
 	return map[string]any{"files": len(p.Files), "rows": rows, "late_files": len(p.Late), "metadata": meta, "family": p.Family, "target_job": p.Job,
 		"knobs": p.Knobs, "age_hours": p.AgeHours, "later_cycles": p.Later, "gaps_s": p.GapS, "second_kill_permille": p.Second,
-		"down_s": p.DownS, "down_mode": p.DownMode, "kill_step_s": p.KillStepS}
+		"down_s": p.DownS, "down_mode": p.DownMode, "kill_step_s": p.KillStepS, "parent_err_points": p.ParentErr}
 }
